@@ -2,7 +2,7 @@
 import os
 import sys
 from pyvc.driver import main, native_bounded, VERIF
-from contracts import multi_native
+from contracts import multi_native, c07_worker
 
 
 def custom_native(ip, runner):
@@ -14,7 +14,8 @@ def custom_native(ip, runner):
 
 def build(chk, ip, runner):
     chk.design_ref = 'DESIGN.md section 5 C07'
-    chk.units = []
+    chk.units = c07_worker.units()
+    chk.stubs = c07_worker.stubs()
     chk.customs = [custom_native]
     chk.level = 'other'
     chk.explanation = 'bounded run-time contract check of the real main() over a fake network; interleavings are whatever the thread pool produces, not enumerated'
